@@ -429,19 +429,37 @@ def _check_none_derefs(ctx, fi, producers):  # noqa: C901, PLR0912
         for v in vals:
             if isinstance(v, ast.Attribute) and v.attr in ('old', 'new') and isinstance(v.value, ast.Name):
                 cand.add(nm)
+    # aliases of aliases (`ref = old_state`), to a fixed point
+    grown = True
+    while grown:
+        grown = False
+        for nm, vals in assigns.items():
+            if nm not in cand and any(isinstance(v, ast.Name) and v.id in cand for v in vals):
+                cand.add(nm)
+                grown = True
     rdefs = {nm: g.reaching_defs(nm) for nm in cand}
 
-    def alias_at(node, nm):
-        """(field, item text) if every binding of nm reaching node is `<item>.old|new`, else None."""
-        fields = set()
+    def sources_at(node, nm, depth=3):
+        """For every binding of nm that reaches node and aliases a TransactionItem field: (def node, field, '<item>.<field>',
+        names on the alias chain); None when no binding does."""
+        out = []
         for d in rdefs[nm].get(node.id, ()):
             v = _bound_value(d, nm)
             if isinstance(v, ast.Attribute) and v.attr in ('old', 'new') and isinstance(v.value, ast.Name):
-                fields.add((v.attr, unparse(v)))
-            else:
-                fields.add(None)
-        real = [f for f in fields if f is not None]
-        return real[0] if real else None
+                out.append((d, v.attr, unparse(v), [nm]))
+            elif isinstance(v, ast.Name) and v.id in cand and depth > 0:
+                inner = sources_at(d, v.id, depth - 1)
+                if inner is not None:
+                    out.extend((d, f, t, [nm] + chain) for _d2, f, t, chain in inner)
+            # any other binding (a copy, a lookup result ..) is not a TransactionItem field: nothing to guard
+        return out or None
+
+    def alias_at(node, nm):
+        """(field, item text) if every binding of nm reaching node is an alias of one `<item>.old|new`, else None."""
+        src = sources_at(node, nm)
+        if src is None or len({(f, t) for _d, f, t, _c in src}) != 1:
+            return None
+        return src[0][1], src[0][2]
 
     count = 0
     for n in g.real_nodes():
@@ -453,6 +471,29 @@ def _check_none_derefs(ctx, fi, producers):  # noqa: C901, PLR0912
             if isinstance(base, ast.Attribute) and base.attr in ('old', 'new') and isinstance(base.value, ast.Name):
                 field, txt, item = base.attr, unparse(base), unparse(base.value)
                 other = f'{item}.{"new" if field == "old" else "old"}'
+            elif isinstance(base, ast.Name) and base.id in cand and isinstance(base.ctx, ast.Load) and \
+                    alias_at(n, base.id) is None and sources_at(n, base.id) is not None:
+                # bound to different fields on different paths (`ref = old if old is not None else new`): every binding
+                # must be made where its source is known to be set, or where the other field of the item is None
+                srcs = sources_at(n, base.id)
+                if not all(producers[f] for _d, f, _t, _c in srcs):
+                    continue
+                count += 1
+                bad = []
+                for d, f, t, chain in srcs:
+                    fd = g.facts_at(d)
+                    item = t.rsplit('.', 1)[0]
+                    other_t = f'{item}.{"new" if f == "old" else "old"}'
+                    names = [t] + [c for c in chain if c != base.id]
+                    others = [other_t] + [k for k in cand if k not in chain and alias_at(d, k) == (('new' if f == 'old' else 'old'), other_t)]
+                    if not (any((f'{x} is None', False) in fd or (x, True) in fd for x in names) or
+                            any((f'{o} is None', True) in fd for o in others)):
+                        bad.append(f'{t} bound at line {d.lineno}')
+                ctx.ob('C03.R3', f'deref {unparse(a)}', not bad,
+                       f'{unparse(a)}: every binding of {base.id} is made where its source is known to be set' if not bad else
+                       f'{unparse(a)} dereferences {base.id}, which can be a TransactionItem field that producers set to None: '
+                       f'{bad}', fi=fi, node=a)
+                continue
             elif isinstance(base, ast.Name) and base.id in cand and isinstance(base.ctx, ast.Load) and \
                     alias_at(n, base.id) is not None:
                 field, txt = alias_at(n, base.id)[0], base.id
